@@ -444,7 +444,20 @@ def local_from(finfo, pred, default=None, which=0, elt=0):
   for _, _, x in sorted(found):
     if x not in names:
       names.append(x)
-  return names[which] if len(names) > which else default
+  if len(names) <= which:
+    return default
+  name = names[which]
+  # follow plain copies `m = name` (e.g. the result variable of an inlined
+  # helper handed on to the caller's local)
+  for _ in range(4):
+    nxt = [n.targets[0].id for n in walk_no_nested(finfo.node)
+           if isinstance(n, ast.Assign) and len(n.targets) == 1 and isinstance(
+               n.targets[0], ast.Name) and isinstance(n.value, ast.Name) and
+           n.value.id == name and n.targets[0].id != name]
+    if len(set(nxt)) != 1:
+      break
+    name = nxt[0]
+  return name
 
 
 def calls(name=None, attr=None):
